@@ -2051,7 +2051,14 @@ CMR_ERROR CMRregularityRefineDecomposition(CMR* cmr, size_t numNodes, CMR_SEYMOU
       continue;
     }
 
-    CMR_CALL( CMRregularityTaskRun(cmr, task, queue) );
+    error = CMRregularityTaskRun(cmr, task, queue);
+    if (error == CMR_ERROR_TIMEOUT)
+    {
+      CMRdbgMsg(2, "Timeout -> removing task %p.\n", task);
+      CMR_CALL( CMRregularityTaskFree(cmr, &task) );
+      break;
+    }
+    CMR_CALL( error );
   }
 
   CMR_CALL( CMRregularityQueueFree(cmr, &queue) );
@@ -2062,6 +2069,6 @@ CMR_ERROR CMRregularityRefineDecomposition(CMR* cmr, size_t numNodes, CMR_SEYMOU
   if (stats)
     stats->totalTime += (clock() - time) * 1.0 / CLOCKS_PER_SEC;
 
-  return CMR_OKAY;
+  return error;
 }
 
